@@ -120,31 +120,62 @@ def key_primitives(ctx, p):
         f = p.fn(HK + '::' + name)
         ctx.analysed(f)
         return f, effects_under(f, kids(f.body), val or {}, keep=keep)
+    def delta(name, val, depth=0):
+        """net effect of a HashKey method on the key components: {component: ('=', value) | ('^', sorted terms)}; calls of other
+        HashKey methods are replaced by their own effect with the arguments substituted"""
+        f = p.fn(HK + '::' + name)
+        ctx.analysed(f)
+        out = {}
+        for e in effects_under(f, kids(f.body), val):
+            m = re.fullmatch(r'\((_\w+_key)(\^?=)(.*)\)', e)
+            if m:
+                comp, op, v = m.groups()
+                if op == '=':
+                    out[comp] = ('=', v)
+                else:
+                    terms = [t for t in (v[1:-1].split('^') if v.startswith('(') and v.endswith(')') and '^' in v else [v])]
+                    cur = out.get(comp, ('^', []))
+                    if cur[0] != '^':
+                        raise AnalysisBroken('C04.R6: %s assigns and then toggles %s' % (name, comp))
+                    out[comp] = ('^', sorted(cur[1] + terms))
+                continue
+            m = re.fullmatch(r'(\w+)\((.*)\)', e)
+            if m and depth < 3 and p.fns(HK + '::' + m.group(1)):
+                g = p.fn(HK + '::' + m.group(1))
+                args = [a.strip() for a in m.group(2).split(',')]
+                _g, sub = delta(m.group(1), val, depth + 1)
+                for comp, (op, v) in sub.items():
+                    def subst(t):
+                        for q, a in zip(g.params, args):
+                            t = re.sub(r'\b%s\b' % re.escape(q['name']), a, t)
+                        return t
+                    if op == '=':
+                        out[comp] = ('=', subst(v))
+                    else:
+                        cur = out.get(comp, ('^', []))
+                        out[comp] = ('^', sorted(cur[1] + [subst(t) for t in v]))
+                continue
+            raise AnalysisBroken('C04.R6: %s does `%s`, which the rule does not know' % (name, e))
+        return f, out
     table = [
-        ('flip_side', {}, ['(_color_key^=SIDE_HASH)'], 'the side component toggles the side constant'),
-        ('clear_enpassant', {}, ['(_enpassant_key=0)'], 'the e.p. component becomes empty'),
-        ('set_enpassant', {}, ['(_enpassant_key=ENPASSANT_HASH[file])'], 'the e.p. component becomes the constant of the file'),
-        ('clear_castling', {}, ['(_castling_key=0)'], 'the castling component becomes empty'),
-        ('set_castling', {}, ['(_castling_key=CASTLING_HASH[castling])'], 'the castling component becomes the constant of the rights set'),
-        ('move_piece', {}, ['toggle_piece(piece,from)', 'toggle_piece(piece,to)'], 'moving a piece toggles it on its origin and on its target'),
+        ('flip_side', {'_color_key': ('^', ['SIDE_HASH'])}, 'the side component toggles the side constant'),
+        ('clear_enpassant', {'_enpassant_key': ('=', '0')}, 'the e.p. component becomes empty'),
+        ('set_enpassant', {'_enpassant_key': ('=', 'ENPASSANT_HASH[file]')}, 'the e.p. component becomes the constant of the file'),
+        ('clear_castling', {'_castling_key': ('=', '0')}, 'the castling component becomes empty'),
+        ('set_castling', {'_castling_key': ('=', 'CASTLING_HASH[castling]')}, 'the castling component becomes the constant of the rights set'),
     ]
-    for name, val, want, what in table:
-        f, got = eff(name, val)
-        ok = sorted(got) == sorted(want)
-        if not ok and not (set(got) <= set(want)):
-            unknown = [g for g in got if g not in want]
-            # an effect on a key component that is not the prescribed one is a wrong update; anything else is unknown
-            if not all(re.match(r'^\(_\w+_key', u) or u.startswith('toggle_piece(') for u in unknown):
-                raise AnalysisBroken('C04.R6: %s does `%s`, which the rule does not know' % (name, unknown[0]))
-        ctx.ob('C04.R6.key-primitive', name, ok, '%s (%s)' % (what, got), site=f.loc())
+    for name, want, what in table:
+        f, got = delta(name, {})
+        ctx.ob('C04.R6.key-primitive', name, got == want, '%s (%s)' % (what, got), site=f.loc())
     for kind, comp in (('PAWN', '_pawn_key'), ('KNIGHT', '_piece_key'), ('KING', '_piece_key')):
         val = {'get_piece_kind(piece)': pkk[kind], 'make_piece_kind(piece)': pkk[kind]}
-        f, got = eff('toggle_piece', val)
-        want = ['(%s^=PIECE_HASH[piece][sq])' % comp]
-        if got != want and not all(re.match(r'^\(_\w+_key', u) for u in got):
-            raise AnalysisBroken('C04.R6: toggle_piece does `%s`, which the rule does not know' % got)
-        ctx.ob('C04.R6.key-primitive', 'toggle_piece:%s' % kind, got == want,
+        f, got = delta('toggle_piece', val)
+        ctx.ob('C04.R6.key-primitive', 'toggle_piece:%s' % kind, got == {comp: ('^', ['PIECE_HASH[piece][sq]'])},
                'toggling a %s toggles its constant in the %s component (%s)' % (kind.lower(), 'pawn' if comp == '_pawn_key' else 'piece', got), site=f.loc())
+        f, got = delta('move_piece', val)
+        ctx.ob('C04.R6.key-primitive', 'move_piece:%s' % kind, got == {comp: ('^', sorted(['PIECE_HASH[piece][from]', 'PIECE_HASH[piece][to]']))},
+               'moving a %s toggles its constants for the origin and the target in the %s component (%s)'
+               % (kind.lower(), 'pawn' if comp == '_pawn_key' else 'piece', got), site=f.loc())
     gk = p.fn(HK + '::get_key')
     ctx.analysed(gk)
     got = effects_under(gk, kids(gk.body), {})
@@ -287,37 +318,15 @@ def check(ctx):
            'init XORs SIDE_HASH iff Black is to move, CASTLING_HASH[rights], ENPASSANT_HASH[file of the e.p. square] only when a square is set, '
            'and PIECE_HASH[piece][square] for every list entry of each of the twelve pieces, pawns into the pawn key and the others into the '
            'piece key (directly or through toggle_piece) — found %s' % cov, site=init.loc())
-    inc_tables = {k: set(t for op, t, g in v if t != '0') for k, v in inc.items()}
-    want_scr = {'_color_key': {'SIDE_HASH'}, '_pawn_key': {'PIECE_HASH[piece][sq]'}, '_piece_key': {'PIECE_HASH[piece][sq]'},
-                '_castling_key': {'CASTLING_HASH[rights]'}, '_enpassant_key': {'ENPASSANT_HASH[file]'}}
-    ctx.ob('C04.R2.incremental-triples', 'HashKey mutators', inc_tables == want_scr,
-           'the incremental mutators use the same (component, table, index) triples as init (%s)'
-           % {k: sorted(v) for k, v in inc_tables.items()}, site=init.loc())
+    # which constant table feeds which component incrementally is decided per primitive by R6 (key_primitives): side <- SIDE_HASH,
+    # e.p. <- ENPASSANT_HASH[file], castling <- CASTLING_HASH[rights], pawn / piece <- PIECE_HASH[piece][square] by kind.
 
     # ---- R3 pawn key purity ----------------------------------------------------------------------------
-    pk_w = [(f, n) for f, n, k in p.field_accesses(HK, '_pawn_key') if k in ('write', 'rmw', 'addr')]
-    okw = set(short(f.name) for f, n in pk_w) <= {'toggle_piece', 'init'}
-    tp = p.fn(HK + '::toggle_piece')
-    g_ok = False
-    for f, n in pk_w:
-        if f is tp:
-            from rules.common import guard_facts
-            for cond, truth in guard_facts(tp, n):
-                s = canon(tp, cond)
-                if s == '(get_piece_kind(piece)==PAWN)' and truth:
-                    g_ok = True
-    pkr = p.fn(HK + '::get_pawnkey')
-    rets = [canon(pkr, kids(n)[0]) for n in pkr.all_nodes() if n['k'] == 'ReturnStmt']
-    ctx.ob('C04.R3.pawn-key', '_pawn_key', okw and g_ok and rets == ['_pawn_key'],
-           'the pawn key is written only by toggle_piece under kind == PAWN and by init\'s pawn loop, and returned unmixed', site=tp.loc())
-    other_w = [(f, n) for f, n, k in p.field_accesses(HK, '_piece_key') if k in ('write', 'rmw', 'addr') and f is tp]
-    g2 = False
-    for f, n in other_w:
-        from rules.common import guard_facts
-        for cond, truth in guard_facts(tp, n):
-            if canon(tp, cond) == '(get_piece_kind(piece)==PAWN)' and not truth:
-                g2 = True
-    ctx.ob('C04.R3.piece-key', '_piece_key', g2, 'non-pawn toggles go to the piece key only', site=tp.loc())
+    # only the key's own methods touch the pawn and piece components (what they do to them: R6); the pawn key is returned unmixed
+    for comp in ('_pawn_key', '_piece_key'):
+        w_ = sorted({short(f.name) for f, n, k in p.field_accesses(HK, comp) if k in ('write', 'rmw', 'addr')})
+        ctx.ob('C04.R3.component-writers', comp, set(w_) <= {'toggle_piece', 'move_piece', 'init', 'HashKey'},
+               '%s is written only by the key\'s own toggle/move/init (%s)' % (comp, w_), site='engine/zobrist_hash.cpp')
 
     # ---- R4 history independence ---------------------------------------------------------------------------
     hk_funcs = [f for f in p.funcs.values() if f.cls == HK]
